@@ -206,7 +206,7 @@ Section C01.
 
   Lemma live_prologue_incl st t : In t (live (prologue c st)) -> In t (live st).
   Proof.
-    unfold prologue. destruct (aw_cnt st =? 0); cbn [live set_aw auto_waste set_wasted set_live]; [|auto].
+    rewrite prologue_eq. destruct (aw_cnt st =? 0); cbn [live set_aw auto_waste set_wasted set_live]; [|auto].
     intro H. apply filter_In in H. apply H.
   Qed.
 
